@@ -1457,6 +1457,11 @@ impl<'a> World<'a> {
             return Ok(());
         }
         let old = self.slots[h as usize].as_ref().unwrap().host.spec;
+        if old.data != cfg.data {
+            // update_engine's contract (and C11's statement): same data directory
+            self.skip(op, "different_data_dir");
+            return Ok(());
+        }
         let r = {
             let slot = self.slots[h as usize].as_mut().unwrap();
             slot.twin = None;
@@ -1782,8 +1787,15 @@ impl<'a> World<'a> {
                 // end of a syllable: both orders must have produced the same text
                 let a = u.host.last.shown_text().to_string();
                 let b = t.host.last.shown_text().to_string();
+                let (sa, sb) = (u.host.last.session, t.host.last.session);
                 self.stats.evaluations += 1;
                 self.stats.bump("oracle.C14_syllable_compared");
+                if a == b && sa != sb {
+                    return Err(Stop::Violation(
+                        "order-equivalence-session".into(),
+                        format!("after the same syllables both contexts show {:?}, but the session flag is {} with the option off and {} with it on (a sign left waiting?)", a, sa, sb),
+                    ));
+                }
                 if a != b {
                     return Err(Stop::Violation(
                         "order-equivalence".into(),
